@@ -281,7 +281,7 @@ theorem val_lt_trans0 (a b c : JVal) (ha : depth a = 0) (hb : depth b = 0) (hc :
 
 theorem val_lt_irrefl0 (a : JVal) (ha : depth a = 0) : Val.lt a a = false := by
   cases a <;> simp_all [depth, Val.lt, Str.lt_irrefl, realLt]
-  rename_i k; cases k <;> simp [realLt]
+  rename_i k; cases k <;> simp
 
 /-! ### `==` on pointer-free values is equality of what the comparisons read; full transitivity -/
 
